@@ -42,12 +42,20 @@ func (p *verifInnerAuth) ValidateGroupMembership(string, []string, string) ([]st
 func (p *verifInnerAuth) Revoke(*sessions.SessionState) error {
 	p.Execs++
 	zz.Yield()
+	if zz.NondetBool("inner.revoke.fails") {
+		return ErrServiceUnavailable
+	}
 	return nil
 }
 func (p *verifInnerAuth) RefreshAccessToken(string) (string, time.Duration, error) {
 	p.Execs++
 	zz.Yield()
-	return zz.NondetString("inner.token"), time.Hour, nil
+	if zz.NondetBool("inner.token.fails") {
+		return "", 0, ErrServiceUnavailable
+	}
+	tok := zz.NondetString("inner.token")
+	zz.Assume(tok != "")
+	return tok, time.Hour, nil
 }
 func (p *verifInnerAuth) Stop() {}
 
@@ -78,6 +86,10 @@ func VerifC16AuthWrappers() {
 		ok      bool
 		done    bool
 		redeemed *sessions.SessionState
+		err      error
+		token    string
+		ttl      time.Duration
+		member   []string
 	}
 	var cs [2]*caller
 	for i := 0; i < 2; i++ {
@@ -101,13 +113,13 @@ func VerifC16AuthWrappers() {
 			case 1:
 				c.ok, _ = sf.RefreshSessionIfNeeded(c.sess)
 			case 2:
-				sf.ValidateGroupMembership(c.sess.Email, c.groups, c.sess.AccessToken)
+				c.member, c.err = sf.ValidateGroupMembership(c.sess.Email, c.groups, c.sess.AccessToken)
 			case 3:
-				sf.Revoke(c.sess)
+				c.err = sf.Revoke(c.sess)
 			case 4:
-				sf.RefreshAccessToken(c.sess.RefreshToken)
+				c.token, c.ttl, c.err = sf.RefreshAccessToken(c.sess.RefreshToken)
 			case 5:
-				c.redeemed, _ = sf.Redeem("https://sso-auth.example/callback", c.code)
+				c.redeemed, c.err = sf.Redeem("https://sso-auth.example/callback", c.code)
 			}
 			c.done = true
 		})
@@ -139,6 +151,18 @@ func VerifC16AuthWrappers() {
 		zz.Assert(before[0].AccessToken == before[1].AccessToken, "C16.revocations of different access tokens are never merged")
 	case 5:
 		zz.Assert(a.code == b.code, "C16.redemptions of different codes are never merged")
+	}
+	// every caller whose call was merged receives the answer of the one execution
+	zz.Assert((a.err == nil) == (b.err == nil), "C16.merged callers receive the same error or success (auth wrapper)")
+	switch a.method {
+	case 0:
+		zz.Assert(a.ok == b.ok, "C16.merged validations receive the same verdict (auth wrapper)")
+	case 2:
+		zz.Assert(verifSetEq2(a.member, b.member), "C16.merged group lookups receive the same groups (auth wrapper)")
+	case 4:
+		zz.Assert(zz.And(a.token == b.token, a.ttl == b.ttl, zz.Implies(a.err == nil, a.token != "")), "C16.merged token refreshes receive the same token and lifetime (auth wrapper)")
+	case 5:
+		zz.Assert(a.redeemed == b.redeemed, "C16.merged redemptions receive the same session (auth wrapper)")
 	}
 	if a.method == 1 && a.ok && b.ok {
 		zz.Assert(zz.And(a.sess.AccessToken == b.sess.AccessToken, a.sess.RefreshDeadline.Equal(b.sess.RefreshDeadline)),
